@@ -200,15 +200,51 @@ def pIntegCore (o : Obj) (lo hi sgn : Rat) : Except Err Rat :=
 def pInteg (o : Obj) (v1 v2 : Rat) : Except Err Rat :=
   if v1 > v2 then pIntegCore o v2 v1 (-1) else pIntegCore o v1 v2 1
 
+/-- the sum `Integrate` forms since fix 441bef8: every piece in the Taylor form at its left limit, without the prefactor -/
+def segSumT (o : Obj) (i1 n : Nat) (lo hi : Rat) : Rat :=
+  (List.range (n + 1)).foldl (fun acc i =>
+    let j := i1 + i
+    let xj := o.x j
+    let xl := if i = 0 then lo else xj
+    let xr := if i = n then hi else o.x (j + 1)
+    let a := coefA o.N o.x o.y j
+    let b := coefB o.N o.x o.y j
+    let c := coefC o.N o.x o.y j
+    let d := coefD o.y j
+    acc + segInteg a b c d (xl - xj) (xr - xl)) (0 : Rat)
+
+theorem foldl_mul_add (p : Rat) (f g : Nat → Rat) (h : ∀ i, g i = p * f i) : ∀ (l : List Nat) (acc : Rat),
+    l.foldl (fun a i => a + g i) (p * acc) = p * l.foldl (fun a i => a + f i) acc
+  | [], acc => rfl
+  | i :: t, acc => by
+    show t.foldl (fun a i => a + g i) (p * acc + g i) = p * t.foldl (fun a i => a + f i) (acc + f i)
+    rw [h i, ← mul_add]
+    exact foldl_mul_add p f g h t (acc + f i)
+
+/-- fix 441bef8 is value-neutral over the rationals: prefactor times the Taylor-form sum is the sum of the
+    prefactor-scaled stem-function differences (the Taylor form of a piece is `stem(right) − stem(left)`) -/
+theorem segSumT_eq (o : Obj) (i1 n : Nat) (lo hi : Rat) : o.pref * segSumT o i1 n lo hi = segSum o i1 n lo hi := by
+  have key := foldl_mul_add o.pref
+    (fun i => segInteg (coefA o.N o.x o.y (i1 + i)) (coefB o.N o.x o.y (i1 + i)) (coefC o.N o.x o.y (i1 + i)) (coefD o.y (i1 + i))
+      ((if i = 0 then lo else o.x (i1 + i)) - o.x (i1 + i))
+      ((if i = n then hi else o.x (i1 + i + 1)) - (if i = 0 then lo else o.x (i1 + i))))
+    (fun i => o.pref * segStem (coefA o.N o.x o.y (i1 + i)) (coefB o.N o.x o.y (i1 + i)) (coefC o.N o.x o.y (i1 + i)) (coefD o.y (i1 + i))
+        (o.x (i1 + i)) (if i = n then hi else o.x (i1 + i + 1)) -
+      o.pref * segStem (coefA o.N o.x o.y (i1 + i)) (coefB o.N o.x o.y (i1 + i)) (coefC o.N o.x o.y (i1 + i)) (coefD o.y (i1 + i))
+        (o.x (i1 + i)) (if i = 0 then lo else o.x (i1 + i)))
+    (fun i => by unfold segInteg segStem; ring) (List.range (n + 1)) 0
+  rw [mul_zero] at key
+  exact key.symm
+
 /-- `Integrate` after the limits have been ordered -/
 def integCore (o : Obj) (lo hi sgn : Rat) : Except Err (Rat × Obj) := do
   let (i1, o1) ← o.locate lo
   let (i2, o2) ← o1.locate hi
-  pure (sgn * segSum o i1 (i2 - i1) lo hi, o2)
+  pure (sgn * o.pref * segSumT o i1 (i2 - i1) lo hi, o2)
 
 theorem integrate_core (o : Obj) (v1 v2 : Rat) :
     o.integrate v1 v2 = if v1 > v2 then integCore o v2 v1 (-1) else integCore o v1 v2 1 := by
-  unfold Obj.integrate integCore segSum
+  unfold Obj.integrate integCore segSumT
   by_cases h : v1 > v2
   · simp only [h, if_true]
   · simp only [h, if_false]
@@ -228,15 +264,15 @@ theorem closed_integCore (o : Obj) (t : Tbl o) (st : LState) (hst : Inv o st) (l
       rw [h2] at h2'
       show (do
         let (i2, o2) ← Obj.locate { o with st := nst st i1 } hi
-        pure (sgn * segSum o i1 (i2 - i1) lo hi, o2) : Except Err (Rat × Obj)) = _
+        pure (sgn * o.pref * segSumT o i1 (i2 - i1) lo hi, o2) : Except Err (Rat × Obj)) = _
       rw [h2']; rfl
     | ok i2 =>
       rw [h2] at h2'
       refine ⟨nst (nst st i1) i2, locateCanon_bound t.mono t.hN h2, ?_⟩
       show (do
         let (i2, o2) ← Obj.locate { o with st := nst st i1 } hi
-        pure (sgn * segSum o i1 (i2 - i1) lo hi, o2) : Except Err (Rat × Obj)) = _
-      rw [h2']; rfl
+        pure (sgn * o.pref * segSumT o i1 (i2 - i1) lo hi, o2) : Except Err (Rat × Obj)) = _
+      rw [h2', ← segSumT_eq o i1 (i2 - i1) lo hi, ← mul_assoc]; rfl
 
 theorem closed_integrate (o : Obj) (t : Tbl o) (st : LState) (hst : Inv o st) (v1 v2 : Rat) :
     Closed o (Obj.integrate { o with st := st } v1 v2) (pInteg o v1 v2) := by
